@@ -69,7 +69,7 @@ def judge(spec, dr):
             info["posed"] = REC.posed_cvxpy(w) if be == "cvxpy" else REC.posed_mosek(w.task, info["nP"], info["nF"])
         except Exception as e:
             info["probs"].append(("posed:raised:%s:%s" % (be, type(e).__name__), str(e)[:150]))
-        if r["value"] is None or r["status"] != "optimal":
+        if r["value"] is None or r["status"] != "optimal" or r.get("first_status") not in (None, "optimal"):
             continue
         tol = solving.tolerance(be, "CLARABEL")
         try:
@@ -115,7 +115,9 @@ def judge(spec, dr):
                 return [("no-optimum-answer-differs:%s" % ("unbounded" if "unbounded" in s1 else "infeasible"),
                          "cvxpy path returned %r, MOSEK path returned %r for a model without finite optimum" % (v1, v2))], "no-optimum"
             return [], "no-optimum"
-        pp = compare_posed(i1, i2, dr)
+        # (with a heuristic the path that found an optimum went on and posed the heuristic problem, the other did not: the
+        #  final problems are comparable only without heuristic)
+        pp = compare_posed(i1, i2, dr) if not dr else []
         if pp:
             return [(k + ":statuses-differ", m + " (cvxpy path: %s, MOSEK path: %s)" % (s1, s2)) for k, m in pp[:1]], "status-differs-posed-differs"
         return [], "status-differs:%s/%s" % (s1, s2)
